@@ -544,3 +544,91 @@ func H_C09_callComment(mods, legacy, n int) {
 		verifAssert(ast2.format(false) == f1, "C09: formatting is idempotent on a commented call with modifiers")
 	}
 }
+
+// ---- C09 / C16: floating-point literals (concrete table) ----
+//
+// Floating point is not symbolic in this engine.  The resource and float
+// literal paths are therefore run on a fixed table of literals chosen for
+// their rounding behaviour (negative fractions, values between two
+// megabytes, exact binary fractions, many digits, exponents); the engine
+// computes on them exactly as Go does (checked by the native replay).
+
+var c09Floats = []string{
+	"0.5", "-1.3", "-2.7", "-0.3", "-0.001", "-10.2", "-2000.1", "-0.05", "-63.9", "-1.5", "-4", "1.3", "2.7",
+	"0.0009765625", "7.9999", "1.0001", "3", "0.1", "100.25", "-0.0001", "64", "0.33333", "12.125", "-7.5",
+}
+
+func c09ResourceSrc(mem, vmem, threads string) string {
+	return "stage NEEDS(\n    in  int x,\n    out int y,\n    src comp \"bin\",\n) using (\n    mem_gb  = " + mem +
+		",\n    threads = " + threads + ",\n    vmem_gb = " + vmem + ",\n)\n"
+}
+
+// H_C09_resourceFloats(i, j): mem_gb = literal i, vmem_gb = literal j, threads
+// = |literal j|: what the formatter prints denotes the same reservation, and
+// is a fixed point.
+func H_C09_resourceFloats(i, j int) {
+	threads := c09Floats[j]
+	if threads[0] == '-' {
+		threads = threads[1:]
+	}
+	src := c09ResourceSrc(c09Floats[i], c09Floats[j], threads)
+	var parser Parser
+	ast, err := parser.UncheckedParse([]byte(src), "/m/r.mro")
+	if err != nil || len(ast.Stages) != 1 || ast.Stages[0].Resources == nil {
+		verifAssert(false, "C09: the resource fixture parses")
+		return
+	}
+	r1 := *ast.Stages[0].Resources
+	f1 := ast.format(false)
+	verifCover("resources formatted")
+	ast2, err := parser.UncheckedParse([]byte(f1), "/m/r.mro")
+	verifAssert(err == nil && len(ast2.Stages) == 1 && ast2.Stages[0].Resources != nil, "C09: formatted resources parse")
+	if err != nil || len(ast2.Stages) != 1 || ast2.Stages[0].Resources == nil {
+		return
+	}
+	r2 := *ast2.Stages[0].Resources
+	verifAssert(r1.MemGB == r2.MemGB, "C09: the formatted mem_gb denotes the same reservation as the source")
+	verifAssert(r1.VMemGB == r2.VMemGB, "C09: the formatted vmem_gb denotes the same reservation as the source")
+	verifAssert(r1.Threads == r2.Threads, "C09: the formatted thread count is the source's")
+	verifAssert(ast2.format(false) == f1, "C09: formatting resources is idempotent")
+}
+
+// H_C16_floatJSON(i): a float expression encodes to JSON that reads back as
+// exactly the same float64, by both encoders.
+func H_C16_floatJSON(i int) {
+	var parser Parser
+	lit := c09Floats[i]
+	dot := false
+	for k := 0; k < len(lit); k++ {
+		dot = dot || lit[k] == '.'
+	}
+	if dot {
+		lit += "01"
+	} else {
+		lit += ".01"
+	}
+	v, err := parser.ParseValExp([]byte(lit))
+	fe, ok := v.(*FloatExp)
+	if err != nil || !ok {
+		verifAssert(false, "C16: the float fixture parses")
+		return
+	}
+	var buf bytes.Buffer
+	verifAssert(fe.EncodeJSON(&buf) == nil, "C16: a float encodes")
+	m, err := fe.MarshalJSON()
+	verifAssert(err == nil && bytes.Equal(m, buf.Bytes()), "C16: EncodeJSON and MarshalJSON agree on floats")
+	verifCover("float encoded")
+	back, err := parser.ParseValExp(buf.Bytes())
+	verifAssert(err == nil, "C16: the JSON of a float reads back")
+	if err != nil {
+		return
+	}
+	switch b := back.(type) {
+	case *FloatExp:
+		verifAssert(b.Value == fe.Value, "C16: a float survives text -> JSON -> text with every digit (float64)")
+	case *IntExp:
+		verifAssert(float64(b.Value) == fe.Value, "C16: an integral float may read back as the same integer")
+	default:
+		verifAssert(false, "C16: the JSON of a float reads back as a number")
+	}
+}
